@@ -58,6 +58,31 @@ CHECKS = {
         text="Byte equality of every message and the result between ParallelSumMultithreaded and ParallelSum instantiations of SumVec/Histogram/MultihotCountVec for pool sizes 1..32, repetitions and contention; gadget-level eval_poly/eval equality with dirty output buffers.",
         note="Schedules are perturbed, not enumerated (stated limit of the technique); a violation requires a structural defect.",
         design="3/C14"),
+    "C15": dict(
+        technique="tape-driven differential testing against a transcription of CKS20 Algorithms 1-3, exact per-layer enumeration with interceptors (hook H3), path-tree enumeration with exact rational weights against closed-form probabilities, tape-RNG testing of the uniform layer, intercepted noise application",
+        text="(1) real samplers vs a transcription of the reference algorithms on common tapes of uniform draws (outputs and requested ranges identical, random source only used through uniform draws); (2) each layer's conditional law enumerated exactly (Bernoulli threshold for all/edge draws, Bernoulli-exp arguments, parity and the rational Taylor identity, factorisation for gamma > 1, geometric, Laplace -0 retry, Gaussian proposal scale and acceptance identity); (3) path trees with exact weights vs closed forms bracketed by rational exp bounds (Laplace end-to-end coarse, Bernoulli-exp and Gaussian acceptance fine); (4) uniform big integers for every bound <= 1024 and every candidate, large bounds vs the word model; (5) add_noise_to_agg_share: one draw per coordinate, scale = sensitivity/epsilon exactly, floor-mod projection incl. negative and oversized noise.",
+        note="Trusted: the transcription of CKS20 and the closed forms; the end-to-end Laplace tree has a residual of about 2^-8, exactness rests on layers 1-2. Probability laws are established by exact enumeration of conditional structure, not by sampling.",
+        design="3/C15"),
+    "C17": dict(
+        technique="metamorphic property-based testing (byte-wise comparison of shares across two measurements under identical randomness)",
+        text="Prio3 (all types, 2..254 aggregators, three XOFs): helper input shares and the leader blind byte-identical, leader measurement-share difference equals the difference of the documented encodings, only the leader's joint-randomness part differs; Poplar1 (two XOF instantiations): both input shares byte-identical, only the public share differs.",
+        note="Trusted: the documented encoding model.",
+        design="3/C17"),
+    "C18": dict(
+        technique="property-based testing with generated mismatch plans and a plan-derived oracle (must fail / must finish with honest output shares)",
+        text="Honest reports (Prio3 with and without joint randomness, Poplar1 inner and leaf) verified under plans that deviate context, nonce, verification key, aggregator identifier and algorithm identifier at one, several or all aggregators; every aggregator combines under its own view; acceptance under a mismatch reported only after 4 independent keys; the two documented exceptions (consistent key substitution; consistent nonce substitution without joint randomness) must finish with honest outputs.",
+        note="Trusted: the plan-to-expectation table in engine/src/c18.rs; XOFs are collision resistant.",
+        design="3/C18"),
+    "C19": dict(
+        technique="property-based testing with a reference model of the query-point derivation (differential on verify_init vs verify_init_with_query_rand) and constructed nonces; position sweep",
+        text="Lengths around powers of two, 0/1 vectors accepted and summed exactly, non-binary vectors and altered leader elements / helper seed / verifier shares rejected (4 keys), every leader-share element swept for small lengths; the aggregators' query point equals the documented HMAC-SHA256/AES-CTR derivation with interpolation nodes skipped, exercised with nonces whose first candidate is a node (found by search).",
+        note="Trusted: the documented derivation of the query point; sharding randomness comes from the OS (verdict independent up to soundness error).",
+        design="3/C19"),
+    "C20": dict(
+        technique="exhaustive small-scope enumeration against a reference predicate + property-based structured histories",
+        text="All 273 parameters over <= 3 bits against all histories of length <= 2 (quick: a third of the length-2 ones), all 54 240 prefix lists of <= 4 prefixes of <= 3 bits through constructor, encoder (vs the specified layout) and decoder with non-canonical variants; generated histories up to 64 bits with the classic wrong-rule twists; single-use rule for Prio3/Prio2.",
+        note="Trusted: the reference predicate written from the property text.",
+        design="3/C20"),
     "C16": dict(
         technique="table-driven property-based testing of every Result-returning entry point with extreme-value argument lattices and per-class expectations (MustErr / MustOk+exercise / NoPanic)",
         text="Constructors of all Prio3/FLP types, Prio2, Poplar1 operations with 0 bits, measurements out of range / wrong length (exact accept-reject oracle), randomness length, aggregator ids, swapped roles, directly constructed malformed shares, share counts, foreign states/messages, aggregate/unshard/decode_result lengths, IDPF gen, prefix lists, DP constructors and noise application; constructed extremes are used end to end within a memory budget.",
